@@ -28,6 +28,8 @@ inductive PyErr where
 
 abbrev R := Except PyErr Bool
 
+deriving instance DecidableEq for Except
+
 namespace PyVal
 
 /-- numeric view `(num, exp)` meaning `num / 2^exp`; `bool` is a subtype of `int` in Python -/
